@@ -192,10 +192,10 @@ theorem C20_run_ends_terminal (s : St) :
 
 /-! ## Non-vacuity: the hypotheses are satisfiable and the interesting branches are reached -/
 
-/-- Happy path, reordered output: JOINED, rows in input order, order reversed, everything cleaned. -/
+/-- Happy path, reordered output: JOINED, rows in input order, order rotated, everything cleaned. -/
 example :
     let s := run (init .muscle3 .reorder 4 "protein") [.start, .tick, .getState, .join false]
-    s.state = .joined ∧ s.result = some ([0, 1, 2, 3], [3, 2, 1, 0]) ∧ s.cleanups = 1 ∧ s.files = 0 ∧ s.child = .dead := by
+    s.state = .joined ∧ s.result = some ([0, 1, 2, 3], [1, 2, 3, 0]) ∧ s.cleanups = 1 ∧ s.files = 0 ∧ s.child = .dead := by
   decide
 
 /-- Exit code ≠ 0 (the former leak): CANCELLED *and* cleaned. -/
